@@ -396,28 +396,20 @@ func (w *world) checkR(pl *placement) *result {
 	}
 	w.oc.TagN("diags:suppressed-as-expected", supOK)
 	w.oc.TagN("diags:preserved-as-expected", presOK)
-	w.oc.Tag("cell:" + pl.formName() + "/" + pl.Marker + "/" + pl.RKind)
-	w.oc.Tag("site:" + pl.Form + "/" + pl.Site)
-	for _, d := range w.d0 {
-		w.oc.Tag("rel:" + pl.Form + "/" + w.relation(pl, d.At))
-	}
-	if pl.Observe != "" {
-		// undocumented layout: what happens to the covered statement is an observation
-		if nIn > 0 {
-			if underInS {
-				w.oc.Tag("obs:" + pl.Observe + ":does-not-cover")
-			} else {
-				w.oc.Tag("obs:" + pl.Observe + ":covers")
-			}
+	// evidence: form x marker x rule-list kind x relation matrix (moved out of the tag table by Finish)
+	if pl.pair {
+		w.oc.Tag("pair:" + pl.Form + "/" + pl.RKind)
+		w.oc.Tag("pair-marker:" + pl.Marker)
+	} else {
+		if pl.Layout != "" {
+			w.oc.Tag("layout:" + pl.formName() + "/" + pl.Marker)
 		}
-		kept := vs[:0]
-		for _, v := range vs {
-			if v.Kind != "under" {
-				kept = append(kept, v)
-			}
+		w.oc.Tag("site:" + pl.Form + "/" + pl.Site)
+		for _, d := range w.d0 {
+			w.oc.Tag("m:" + pl.Form + "/" + pl.Marker + "/" + pl.RKind + "/" + w.relation(pl, d.At))
 		}
-		vs = kept
 	}
+	_ = underInS
 	if nIn > 0 && nOut > 0 {
 		var sb strings.Builder
 		for _, f := range w.p.Order {
@@ -468,6 +460,16 @@ func (w *world) isLate(d odiag) bool {
 func (w *world) run(pl *placement) {
 	res := w.checkR(pl)
 	vs := res.vs
+	observedDiffers := false
+	if pl.Observe != "" {
+		defer func() {
+			if observedDiffers {
+				w.oc.Tag("obs:" + pl.Observe + ":does-not-cover(unlike-the-plain-layout)")
+			} else {
+				w.oc.Tag("obs:" + pl.Observe + ":covers-like-the-plain-layout")
+			}
+		}()
+	}
 	if len(vs) == 0 {
 		return
 	}
@@ -520,6 +522,12 @@ func (w *world) run(pl *placement) {
 					rk = "two"
 				}
 			}
+		}
+		if pl.Observe != "" && form != pl.Form && v.Kind == "under" {
+			// the documentation is silent on this layout and the plain layout does cover the diagnostic:
+			// an observation, not a violation
+			observedDiffers = true
+			continue
 		}
 		// a diagnostic that is issued only when the subroutine has been linted completely (calibrated: a
 		// directive on its statement never reaches it) is named in the key instead of the site
@@ -611,6 +619,9 @@ func (w *world) pickRules(kind string, S map[lineRef]bool) (rules []string, sep 
 		}
 		return []string{in[w.r.Intn(len(in))]}, sep, true
 	case "unlisted":
+		if len(out) == 0 {
+			return nil, sep, false
+		}
 		return []string{out[w.r.Intn(len(out))]}, sep, true
 	case "unknown":
 		return []string{"no-such/rule"}, sep, true
@@ -619,7 +630,10 @@ func (w *world) pickRules(kind string, S map[lineRef]bool) (rules []string, sep 
 			return nil, sep, false
 		}
 		a := in[w.r.Intn(len(in))]
-		b := out[w.r.Intn(len(out))]
+		b := "no-such/rule"
+		if len(out) > 0 {
+			b = out[w.r.Intn(len(out))]
+		}
 		if len(in) > 1 && w.r.Intn(2) == 0 {
 			for b = a; b == a; {
 				b = in[w.r.Intn(len(in))]
@@ -944,6 +958,28 @@ func (w *world) spec(form string, p, q *node, marker, kind string) (dirSpec, boo
 
 func (w *world) pairs(full bool, per int) {
 	kindsPairs := [][2]string{{"all", "all"}, {"all", "listed"}, {"listed", "all"}, {"listed", "listed"}}
+	// nested pairs also with the inner directive naming the SAME rule as the outer one ("same"); "listed"
+	// then means a different rule
+	nestedKinds := append([][2]string{{"listed", "same"}}, kindsPairs...)
+	// inner returns the inner directive's spec for the kind pair
+	innerSpec := func(form string, c *node, kind string, outerRules []string) (dirSpec, bool) {
+		s, ok := w.spec(form, c, nil, "slash", kind)
+		if kind != "listed" && kind != "same" || len(outerRules) != 1 {
+			return s, ok && kind != "same"
+		}
+		in, _ := w.rulesIn(w.sOf(c, c))
+		var cands []string
+		for _, r := range in {
+			if (r == outerRules[0]) == (kind == "same") {
+				cands = append(cands, r)
+			}
+		}
+		if len(cands) == 0 {
+			return s, false
+		}
+		s.Rules, s.RKind, s.Sep = []string{cands[w.r.Intn(len(cands))]}, kind, ","
+		return s, true
+	}
 	pick := func(n int) []int {
 		if full || n <= per {
 			out := make([]int, n)
@@ -1021,14 +1057,14 @@ func (w *world) pairs(full bool, per int) {
 					if of == "range" && inf == "range" && multiFile {
 						continue // the flat range semantics below are computed on one file
 					}
-					kps := [][2]string{kindsPairs[w.r.Intn(len(kindsPairs))]}
+					kps := [][2]string{nestedKinds[w.r.Intn(len(nestedKinds))]}
 					if full {
-						kps = kindsPairs
+						kps = nestedKinds
 					}
 					for _, kp := range kps {
 						for rep := 0; rep < reps; rep++ {
 							so, ok1 := w.spec(of, outer, nil, "slash", kp[0])
-							si, ok2 := w.spec(inf, c, nil, "slash", kp[1])
+							si, ok2 := innerSpec(inf, c, kp[1], so.Rules)
 							if !ok1 || !ok2 {
 								continue
 							}
@@ -1085,7 +1121,10 @@ func (w *world) pairs(full bool, per int) {
 		in, out := w.rulesIn(w.sOf(p, p2))
 		if len(in) > 0 {
 			a := in[w.r.Intn(len(in))]
-			bb := out[w.r.Intn(len(out))]
+			bb := "no-such/rule"
+			if len(out) > 0 {
+				bb = out[w.r.Intn(len(out))]
+			}
 			if len(in) > 1 {
 				for bb = a; bb == a; {
 					bb = in[w.r.Intn(len(in))]
@@ -1132,6 +1171,9 @@ func (w *world) pairs(full bool, per int) {
 	}
 	for _, pi := range pick(len(simple)) {
 		p := simple[pi]
+		if p.Kind == "include" {
+			continue
+		}
 		kps := [][2]string{kindsPairs[1+w.r.Intn(3)]}
 		if full {
 			kps = kindsPairs
